@@ -129,6 +129,14 @@ DTYPES = ['int64', 'uint8', 'float32', 'bool', 'list']
 CONTAINERS = ['masked', 'masked_nomask', 'matrix', 'subclass', 'memmap']
 LAYOUTS = ['F', 'strided', 'negstride', 'readonly', 'offset']
 ARGFORMS = ['np0d', 'npscalar']
+# whole-number extent / pixel scale / oversampling given as small-width numpy integers (scalars or 0-d arrays) whose
+# pairwise products leave the dtype's range although every value fits: (dtype, extent, oversample, pixelscale)
+SMALLINTS = [('uint8', '60', '5', '200'), ('uint8', '17', '16', '136'), ('uint8', '200', '2', '250'),
+             ('int8', '60', '4', '100'), ('int8', '16', '9', '96'), ('int8', '100', '2', '80'),
+             ('uint16', '300', '300', '45000'), ('uint16', '1000', '70', '40000'),
+             ('int16', '200', '200', '20000'), ('int16', '5000', '7', '17500')]
+# the caller's floating-point error state / warnings filter / spelling of the call must not matter
+CALLSTATES = ['errstate-raise', 'errstate-ignore', 'warnings-error', 'positional']
 SCALES2 = [-60, -43, -30, 20, 40]
 # near-ties: parameters within 1e-6 relative of a special value, but not equal to it
 NEAR_UNITS = [('1000001/1000000', '1'), ('999999/1000000', '2'), ('1', '1000001/1000000'), ('1', '2000001/1000000')]
@@ -224,6 +232,24 @@ def mk_variant(rng, op, m, n, what):
         c['argform'] = what
     else:
         c['scale2'] = what
+    return c
+
+
+def mk_smallint(rng, op, m, n):
+    c = mk_case(rng, op, m, n, 'quick', 0, kind=rng.choice(['background', 'dense', 'sparse']), variants=False)
+    dt, e, o, ps = rng.choice(SMALLINTS)
+    if op == 'pixel':
+        c['os'] = rng.choice(['2', '3', '5'])
+    else:
+        c['ext'], c['os'], c['ps'] = e, o, ps
+    c['argform'] = dt + rng.choice(['-scalar', '-0d'])
+    c['kind'] = 'smallint'
+    return c
+
+
+def mk_callstate(rng, op, m, n, what):
+    c = mk_case(rng, op, m, n, 'quick', 0, kind=rng.choice(['background', 'dense', 'sparse', 'corner']), variants=False)
+    c['callstate'] = what
     return c
 
 
@@ -350,6 +376,12 @@ def generate(rng, tier):
             out.append(mk_zero(rng, op, *rng.choice(PRIME_MODEL[:4])))
         for _ in range(3):
             out.append(mk_angle_none(rng, *rng.choice(small[:6])))
+        for op in ops:
+            for _ in range(2 if op != 'pixel' else 1):
+                out.append(mk_smallint(rng, op, *rng.choice(small[:6])))
+        for what in CALLSTATES:
+            for op in rng.sample(ops, 2):
+                out.append(mk_callstate(rng, op, *rng.choice(small), what))
     else:
         shapes = [s for s in SHAPES_ALL if cost(*s) <= 60000]
         ncase, allshifts = 1200, 25
@@ -380,6 +412,14 @@ def generate(rng, tier):
                 out.append(mk_zero(rng, op, *sh))
         for _ in range(20):
             out.append(mk_angle_none(rng, *rng.choice(small)))
+        for op in ops:
+            for _ in range(12):
+                out.append(mk_smallint(rng, op, *rng.choice(small)))
+        for what in CALLSTATES:
+            for op in ops:
+                for _ in range(3):
+                    out.append(mk_callstate(rng, op, *rng.choice(small), what))
+        out.append(mk_big(rng, 'jitter', (2049, 2051)))      # > 2**22 samples, no round block size divides it
         for shape in BIG_SHAPES[:3]:
             out.append(mk_big(rng, 'pixel', shape))
             out.append(mk_big(rng, 'smear', shape))
@@ -406,7 +446,7 @@ def classify(c):
         tag += '/' + c['dtype']
     if c.get('intargs'):
         tag += '/int-args'
-    for k in ('argform', 'container', 'layout'):
+    for k in ('argform', 'container', 'layout', 'callstate'):
         if c.get(k):
             tag += '/' + c[k]
     if c.get('scale2'):
@@ -434,6 +474,11 @@ def params(c):
             return np.array(v)                   # 0-d array
         if c.get('argform') == 'npscalar':
             return np.float64(v)
+        af = c.get('argform') or ''
+        if '-' in af and f.denominator == 1:
+            dt, form = af.split('-')
+            if np.iinfo(dt).min <= int(f) <= np.iinfo(dt).max:
+                return np.dtype(dt).type(int(f)) if form == 'scalar' else np.array(int(f), dtype=dt)
         return v
     p = {'os': num(c['os'])}
     if c['op'] != 'pixel':
@@ -442,7 +487,7 @@ def params(c):
     if c['op'] == 'smear' and c['angle'] is None:
         p['angle'] = None                        # random direction (global numpy stream)
     elif c['op'] == 'smear':
-        p['angle'] = num(c['angle'])
+        p['angle'] = float(Fraction(c['angle'])) if '-' in (c.get('argform') or '') else num(c['angle'])
         a = np.radians(float(p['angle']))
         p['sn'] = float(np.sin(a))
         p['cs'] = float(np.cos(a))
@@ -559,12 +604,45 @@ def decode(c, ints):
 
 
 # ------------------------------------------------------------------ implementation side
-def call(lentil, c, img, p):
+def call_plain(lentil, c, img, p):
+    if c.get('callstate') == 'positional':
+        if c['op'] == 'pixel':
+            return lentil.detector.pixel(img, oversample=p['os'])        # (the other calls spell it positionally)
+        if c['op'] == 'jitter':
+            return lentil.jitter(img, p['ext'], p['ps'], p['os'])
+        return lentil.smear(img, p['ext'], p['angle'], p['ps'], p['os'])
     if c['op'] == 'pixel':
         return lentil.detector.pixel(img, p['os'])
     if c['op'] == 'jitter':
         return lentil.jitter(img, p['ext'], pixelscale=p['ps'], oversample=p['os'])
     return lentil.smear(img, p['ext'], angle=p['angle'], pixelscale=p['ps'], oversample=p['os'])
+
+
+class CallerStateChanged(Exception):
+    pass
+
+
+def call(lentil, c, img, p):
+    """the call, made under the caller state the case asks for; the library must leave that state as it found it"""
+    import warnings
+    st = c.get('callstate')
+    if st in ('errstate-raise', 'errstate-ignore'):
+        mode = st.split('-')[1]
+        with np.errstate(over=mode, invalid=mode, divide=mode):
+            before = np.geterr()
+            out = call_plain(lentil, c, img, p)
+            if np.geterr() != before:
+                raise CallerStateChanged()
+        return out
+    if st == 'warnings-error':
+        with warnings.catch_warnings():
+            warnings.simplefilter('error')
+            nfilters = len(warnings.filters)
+            out = call_plain(lentil, c, img, p)
+            if len(warnings.filters) != nfilters:
+                raise CallerStateChanged()
+        return out
+    return call_plain(lentil, c, img, p)
 
 
 def fresh_lentil():
@@ -681,7 +759,7 @@ def as_result(out, c=None):
     kind = o.dtype.kind
     if c is not None and c.get('scale2') and kind in 'fc':
         o = o / 2.0 ** c['scale2']             # exact: the result for the unscaled image
-    return {'out': Arr(o) if o.size > 100000 else o.tolist(), 'dtype_kind': kind}
+    return {'out': Arr(np.array(o, copy=True)) if o.size > 100000 else o.tolist(), 'dtype_kind': kind}
 
 
 def run_history(c):
@@ -689,11 +767,19 @@ def run_history(c):
     lentil = fresh_lentil()
     img = mk_img(c)                      # ONE object handed to every call of the history
     seq = []
+    held = []
     for k in calls:
         try:
-            seq.append(as_result(call(lentil, k, img, params(k)), c))
+            raw = call(lentil, k, img, params(k))
+            seq.append(as_result(raw, c))
+            held.append((raw, np.array(np.asarray(raw), copy=True)))
         except Exception as e:
             seq.append({'err': type(e).__name__})
+            held.append(None)
+    # every returned array is still held by the caller: it must be what it was when it was returned
+    for r, h in zip(seq, held):
+        if h is not None:
+            r['kept'] = bool(np.array_equal(np.asarray(h[0]), h[1], equal_nan=True))
     alone = []
     for k in calls:                      # the same call made first in a fresh state
         lentil = fresh_lentil()
@@ -722,12 +808,29 @@ def run_impl(c):
     try:
         arg = mk_img(c)
         snap = snapshot(arg)
-        res.update(as_result(call(lentil, c, arg, p), c))
+        raw = call(lentil, c, arg, p)
+        res.update(as_result(raw, c))
         res['input_untouched'] = untouched(arg, snap)
+        keep = np.array(np.asarray(raw), copy=True)
     except Exception as e:
         return {'err': type(e).__name__}
     # circular translations of the input
     res['rolled'] = [one(mk_img(c, np.roll(img, tuple(s), axis=(0, 1))), p) for s in c.get('shifts', [])]
+    # the first result is still held by the caller: later calls must not have changed it ...
+    res['result_kept'] = bool(np.array_equal(np.asarray(raw), keep, equal_nan=True))
+    # ... nor does blurring the result itself (b = blur(blur(a))) ...
+    if 'proc' not in c:
+        try:
+            call(lentil, c, raw, p)
+            res['result_kept_chained'] = bool(np.array_equal(np.asarray(raw), keep, equal_nan=True))
+        except Exception as e:
+            res['result_kept_chained'] = {'err': type(e).__name__}
+    # ... and what the caller then does to its own result must not leak into later calls
+    try:
+        if isinstance(raw, np.ndarray) and raw.flags.writeable:
+            raw[...] = -7.0
+    except Exception:
+        pass
     # the same call again after the others: a fixed convolution does not depend on the calls made before
     res['again'] = one(mk_img(c), p)
     # zero extent
@@ -875,6 +978,9 @@ def oracle_history(c, impl):
         msg = check_out(sub, r)
         if msg:
             return f'call {i + 1} of the history ({describe(k)}): {msg}'
+        if r.get('kept') is False:
+            return (f'the array returned by call {i + 1} of the history ({describe(k)}) was changed by the later calls '
+                    f'while the caller still held it')
         if 'err' in r0:
             return f'call {i + 1} made alone ({describe(k)}) raised {r0["err"]}'
         msg = arr_close(r['out'], r0['out'])
@@ -894,6 +1000,13 @@ def oracle(c, impl):
         return msg
     if impl.get('input_untouched') is False:
         return 'the image passed by the caller was modified by the call'
+    if impl.get('result_kept') is False:
+        return 'the array returned by the call was changed by later calls on frames of the same shape (it is not the caller\'s own)'
+    rk = impl.get('result_kept_chained')
+    if isinstance(rk, dict):
+        return f'raised {rk["err"]} when the result was blurred again'
+    if rk is False:
+        return 'blurring the returned array again changed it (b = blur(blur(a)) overwrote blur(a))'
     if c['op'] == 'smear' and c['angle'] is None:
         z = impl.get('zero')
         if isinstance(z, dict):
